@@ -37,12 +37,15 @@ template <class X> void run(Ctx& c, const Str& s, unsigned mask, int opKind) {
     else {
         if (!u.owner) c.violation("C12", fmt("owner/%s/owner-flag-not-set", X::tag()), what);
         ObjView v1 = read_uri<X>(u); Str t1; to_string<X>(u, &t1);
+        Str ht1 = narrow<X>(u.hostText.first, u.hostText.afterLast);
+        if (!v1.malformed.empty()) c.violation("C12", fmt("owner/%s/malformed-after-%s", X::tag(), opKind == 0 ? "makeowner" : "normalize"), what + " " + v1.malformed);
         if (opKind == 0 && t1 != textBefore) c.violation("C12", fmt("owner/%s/content-changed-by-makeowner", X::tag()), what + fmt(" before=\"%s\" after=\"%s\"", esc(textBefore).c_str(), esc(t1).c_str()));
         // (a) overwrite the source with a different pattern
         c.stage(3);
         for (size_t i = 0; i < w.size(); i++) text[i] = X::wid((unsigned char)('!' + (i % 7)));
         ObjView v2 = read_uri<X>(u); Str t2; to_string<X>(u, &t2);
-        if (t2 != t1 || v2.c.describe() != v1.c.describe() || v2.segs != v1.segs)
+        Str ht2 = narrow<X>(u.hostText.first, u.hostText.afterLast);
+        if (t2 != t1 || v2.c.describe() != v1.c.describe() || v2.segs != v1.segs || ht2 != ht1 || v2.malformed != v1.malformed)
             c.violation("C12", fmt("owner/%s/depends-on-source-after-%s", X::tag(), opKind == 0 ? "makeowner" : "normalize"), what + fmt(" before-scribble=\"%s\" after-scribble=\"%s\"", esc(t1).c_str(), esc(t2).c_str()));
         // (b) release the source: any remaining pointer into it now faults (fence) or is a use-after-free (ASan)
         c.stage(4);
